@@ -294,15 +294,17 @@ def run(F, tier, res):
         mirq = F.bodies[q]['mir']
         names = {n_[0]: n_[1]['l'] for n_ in mirq['names'] if not n_[1]['p'] and n_[1]['l'] <= mirq['arg_count']}     # parameters only
         pagers_idx = None
-        for blk in mirq['blocks']:
-            for st in blk['s']:
-                if st[0] == 'assign':
-                    for x in [st[1]] + [y for y in st[2][1:] if isinstance(y, dict)]:
-                        pl = x if 'l' in x else (x.get('copy') or x.get('move'))
-                        if pl and pl.get('p'):
-                            for pr in pl['p']:
-                                if pr[0] == 'field' and pr[3] == 'pagers':
-                                    pagers_idx = pr[1]
+        local_reach = [x for x in F.reachable_from([q]) if x in F.fn_bodies]
+        for fnx in [q] + local_reach:
+            for blk in F.bodies[fnx]['mir']['blocks']:
+                for st in blk['s']:
+                    if st[0] == 'assign':
+                        for x in [st[1]] + [y for y in st[2][1:] if isinstance(y, dict)]:
+                            pl = x if 'l' in x else (x.get('copy') or x.get('move'))
+                            if pl and pl.get('p'):
+                                for pr in pl['p']:
+                                    if pr[0] == 'field' and pr[3] == 'pagers':
+                                        pagers_idx = pr[1]
         env_l, cfg_l = names.get('env'), names.get('pager_from_config')
         cases = []
         undecided = pagers_idx is None or env_l is None or cfg_l is None
@@ -311,7 +313,7 @@ def run(F, tier, res):
                 for has_dp in (True, False):
                     for has_p in (True, False):
                         m = _PagerProbe(F)
-                        m.RELEVANT = set(m.RELEVANT) | {q} | {cc for cc in F.fn_bodies if cc.startswith(q + '::{closure')}
+                        m.RELEVANT = set(m.RELEVANT) | {q} | {cc for cc in F.fn_bodies if cc.startswith(q + '::{closure')} | {x for x in local_reach if 'output' in x or 'pager' in x.lower()}
                         m.stack.append('<probe>')
                         opt = lambda on, tag: _e1.ENUM(_e1.OPT, 1, [_e1.TOP({tag})]) if on else _e1.ENUM(_e1.OPT, 0, [])
                         pagers = ('tuple', (opt(has_dp, 'DELTA_PAGER'), opt(has_p, 'PAGER')))
